@@ -117,6 +117,25 @@ def step_ops(T, s, ncv, opt, probes, cont=False):
     return L
 
 
+UNROUND_KEYS = ("forceConstant", "stoppingValue", "centers", "targetCenters", "targetForceConstant", "lowerWalls", "upperWalls", "hillWeight",
+                "barrier", "gaussianSigma", "forceRange", "rateMax", "biasTemperature")
+
+
+def unround(text, rng):
+    """the same configuration with parameter values that need all 17 digits (a state that carries them rounded changes the resumed run)"""
+    out = []
+    for line in text.split("\n"):
+        t = line.split()
+        if len(t) >= 2 and t[0] in UNROUND_KEYS:
+            try:
+                vals = [float(x) for x in t[1:]]
+                line = " " + t[0] + " " + " ".join("%.17g" % (v * (1.0 + rng.uniform(1e-8, 9e-8)) + rng.uniform(1e-9, 9e-9)) for v in vals)
+            except ValueError:
+                pass
+        out.append(line)
+    return "\n".join(out)
+
+
 def gen(rng, tier):
     fams = families()
     work = os.path.join(cvbuild.CACHE, "c03-scratch")
@@ -136,6 +155,8 @@ def gen(rng, tier):
                 K = 6 * rng.randint(0, (N - 1) // 6)          # on the schedules (multiples of 2, 3, 6)
             binfmt = ((idx + rep_) % 2 == 1) if len(fams) % 2 == 0 else (idx % 2 == 1)
             idx += 1
+            if rep_ % 2 == 1 and not opt.get("model"):
+                bias = unround(bias, rng)          # (the modelled families declare their parameters to the Lean driver as well: left as they are)
             T = traj(rng, N + 1, ncv, opt.get("wide"))
             pfx = os.path.join(work, "s%d" % idx)
             probe = ["m.forces"] + ["m.cv x%d ft fa" % i for i in range(ncv)] + ["m.bias b"]
